@@ -125,7 +125,14 @@ type FuncSpec struct {
 	NoSweep   []string // sweep kinds not generated for this function (reason goes to DESIGN.md / evidence)
 	Records   [][2]string // (ghost, parameter or retN): the engine stores that value in the ghost at every call
 	Counted   []string // ghost counters bumped by the engine at every call of this function
+	CountedWhen []CountWhen // counted g when <expr over the results>: bumped at the calls whose outcome satisfies expr
 	Helper    bool // internal helper: type invariants are neither assumed nor checked at its boundary
+}
+
+type CountWhen struct {
+	Ghost string
+	E     Expr
+	Src   string
 }
 
 type LockInv struct {
@@ -156,6 +163,7 @@ type TypeSpec struct {
 type FinalDecl struct {
 	Fields []string
 	Tags   []string
+	Except []string // transient: functions whose job is to insert (checked at their callers)
 }
 
 type HoldDecl struct {
@@ -965,7 +973,15 @@ func parseSpecFile(path string, pkgPath string) (*SpecFile, error) {
 			}
 		case "counted":
 			if f := target(); f != nil {
-				f.Counted = append(f.Counted, splitNames(rest)...)
+				if k := strings.Index(rest, " when "); k > 0 {
+					e, err := parseExprString(strings.TrimSpace(rest[k+6:]))
+					if err != nil {
+						return fail(err)
+					}
+					f.CountedWhen = append(f.CountedWhen, CountWhen{Ghost: strings.TrimSpace(rest[:k]), E: e, Src: rest})
+				} else {
+					f.Counted = append(f.Counted, splitNames(rest)...)
+				}
 			}
 		case "helper":
 			if curF != nil {
@@ -1113,7 +1129,12 @@ func parseSpecFile(path string, pkgPath string) (*SpecFile, error) {
 				curT.LockInvs = append(curT.LockInvs, LockInv{Lock: strings.TrimSpace(body[:k]), C: c})
 			case "transient":
 				tags, _, body := parseTags(rest)
-				curT.Transient = append(curT.Transient, FinalDecl{Fields: splitNames(body), Tags: tags})
+				var except []string
+				if k := strings.Index(body, " except "); k > 0 {
+					except = splitNames(body[k+8:])
+					body = body[:k]
+				}
+				curT.Transient = append(curT.Transient, FinalDecl{Fields: splitNames(body), Tags: tags, Except: except})
 			case "init":
 				curT.Inits = append(curT.Inits, splitNames(rest)...)
 			case "owns":
